@@ -127,6 +127,61 @@ def methods_of(prog, k):
                 tg = tt(tg)
                 if tg in (INT, STR):
                     out["poke_f%d_f%d" % (f, g)] = (("poke", f, g), [tg], None)
+    # methods that read / write a variable declared OUTSIDE the class (module level, or a local of the enclosing
+    # function).  A bare name that is also a field of this class is the field (getb/setb), so no such method then.
+    for gi, ov in enumerate(prog.get("outer", [])):
+        if ov["name"] in ["f%d" % f for f in range(len(c["fields"]))]:
+            continue
+        gt = tt(ov["type"])
+        out["rdo_%s" % ov["name"]] = (("rdo", gi), [], gt)
+        out["wro_%s" % ov["name"]] = (("wro", gi), [gt], None)
+        for f, t in enumerate(c["fields"]):
+            if tt(t) == gt:
+                out["addo_%s_f%d" % (ov["name"], f)] = (("addo", gi, f), [], gt)
+    return out
+
+
+OUTER_KINDS = ("rdo", "wro", "addo")
+
+
+def has_outer_ops(prog, hist):
+    """does the history use a variable declared outside the classes (not covered by the Coq model)"""
+    for op in hist:
+        if op[0] in ("oprint", "owrite") or (op[0] == "call" and op[3].split("_")[0] in OUTER_KINDS):
+            return True
+    return False
+
+
+def param_name(prog, k, j):
+    """constructor parameters are named like the fields they initialise (flavour bit 2) or p<j>"""
+    return ("f%d" % prog["classes"][k]["params"][j]) if (prog.get("flavour", 0) & 2) else "p%d" % j
+
+
+METHOD_PARAM_NAMES = {"v": None, "d": None, "x": None, "other": None}
+
+
+def outer_hidden_by_param(prog):
+    """outer variables whose name is also the name of a parameter of a constructor or of a method of some class
+    -> [(name, differs)]: differs = some such parameter has another type than the outer variable"""
+    out = []
+    for ov in prog.get("outer", []):
+        types = []
+        for k, c in enumerate(prog["classes"]):
+            for j, pf in enumerate(c["params"]):
+                if param_name(prog, k, j) == ov["name"]:
+                    types.append(tt(c["fields"][pf]))
+            if ov["name"] in METHOD_PARAM_NAMES:
+                for name, (m, pts, rt) in methods_of(prog, k).items():
+                    if m[0] in ("set", "setb", "with") and ov["name"] == "v":
+                        types.append(tt(pts[0]))
+                    if m[0] in ("inc", "twice", "poke") and ov["name"] == "d":
+                        types.append(tt(pts[0]))
+                    if m[0] == "bump" and ov["name"] in ("other", "d"):
+                        types.append(tt(pts[0] if ov["name"] == "other" else pts[1]))
+                    if m[0] == "push" and ov["name"] == "x":
+                        types.append(tt(pts[0]))
+        if types:
+            out.append((ov["name"], any(t != tt(ov["type"]) for t in types)))
     return out
 
 
@@ -137,6 +192,13 @@ def render_method(prog, k, name, sig):
     f = "f%d" % m[1] if len(m) > 1 else None
     if kind == "me":
         return "\tfn me(self) -> Self {\n\t\treturn self\n\t}\n"
+    if kind in OUTER_KINDS:
+        g = prog["outer"][m[1]]["name"]
+        if kind == "rdo":
+            return "\tfn %s(self) -> %s {\n\t\treturn %s\n\t}\n" % (name, T(rt), g)
+        if kind == "wro":
+            return "\tfn %s(self, nv: %s) {\n\t\tmodify %s = nv\n\t}\n" % (name, T(ptypes[0]), g)
+        return "\tfn %s(self) -> %s {\n\t\treturn self.f%d + %s\n\t}\n" % (name, T(rt), m[2], g)
     if kind == "dup":
         return "\tfn dup(self) -> Self {\n\t\treturn Self(%s)\n\t}\n" % ", ".join("self.f%d" % x for x in m[1:])
     if kind == "get":
@@ -172,7 +234,7 @@ def render_classes(prog, used=None):
         for f, t in enumerate(c["fields"]):
             s += "\tf%d: %s\n" % (f, tstr(tt(t), k, True))      # the class under definition is only known as Self
         # constructor parameters are named like the fields they initialise (flavour bit 1) or p<k>
-        pn = lambda j: ("f%d" % c["params"][j]) if (fl & 2) else "p%d" % j
+        pn = lambda j, k=k: param_name(prog, k, j)
         ps = "".join(", %s: %s" % (pn(j), tstr(tt(c["fields"][pf]), k, True)) for j, pf in enumerate(c["params"]))
         if c["body"] or c["params"] or not (fl & 4):
             s += "\tconstructor(self%s) {\n" % ps
@@ -204,6 +266,7 @@ def render_classes(prog, used=None):
 #  ("pass", path, f, lit)              bump_Ck_f(p, lit)      ("retsame", dst, path)   dst = same_Ck(p)
 #  ("is", path, path)
 #  ("viamap", dst, path)               dst = thru_Ck(p): the object is stored in a map and taken out again (m.replace)
+#  ("oprint", g)   ("owrite", g, lit)  print <outer g> | <outer g> = lit        (outer variables: correspondence only)
 # path = (var, field, field, ...);  operand = ("L", literal) | ("P", path)
 
 def printable(t):
@@ -338,6 +401,11 @@ class Typer:
             t, definite = self.ptype(op[2])
             need(t[0] == "cls" and definite and op[1] != op[2][0])
             self.bind(op[1], opt(t))
+        elif k == "oprint":
+            need(0 <= op[1] < len(self.prog.get("outer", [])))
+        elif k == "owrite":
+            need(0 <= op[1] < len(self.prog.get("outer", [])))
+            need(lit_fits(op[2], self.prog["outer"][op[1]]["type"]) and op[2] is not None)
         else:
             raise Invalid()
 
@@ -392,6 +460,7 @@ class Oracle:
     def __init__(self, prog):
         self.prog = prog
         self.env = {}
+        self.outer = [tt(ov["init"]) if isinstance(ov["init"], list) else ov["init"] for ov in prog.get("outer", [])]
 
     def obj(self, v):
         """the object a reference denotes; nil denotes none: the program stops"""
@@ -432,6 +501,15 @@ class Oracle:
             return o
         if kind == "dup":
             return self.construct(o.k, [o.f[f] for f in m[1:]])
+        # a method is lexically inside the class: a name that is neither a field nor its own parameter is the variable
+        # of the enclosing scope (never a constructor parameter: those are local to the constructor)
+        if kind == "rdo":
+            return self.outer[m[1]]
+        if kind == "wro":
+            self.outer[m[1]] = args[0]
+            return None
+        if kind == "addo":
+            return o_add(o.f[m[2]], self.outer[m[1]])
         f = m[1]
         if kind in ("get", "getb"):
             return o.f[f]
@@ -518,6 +596,10 @@ class Oracle:
             return [self.path(op[1]) is self.path(op[2])]
         elif k == "viamap":
             env[op[1]] = self.obj(self.path(op[2]))      # what comes out of the map is the object that went in
+        elif k == "oprint":
+            return [self.outer[op[1]]]
+        elif k == "owrite":
+            self.outer[op[1]] = op[2]
         else:
             raise Invalid()
         return []
@@ -637,6 +719,10 @@ def render_program(prog, hist):
             assign(op[1], "%s(%s)" % (hn, path_src(op[2])))
         elif k == "is":
             lines.append("print %s is %s" % (path_src(op[1]), path_src(op[2])))
+        elif k == "oprint":
+            lines.append("print %s" % prog["outer"][op[1]]["name"])
+        elif k == "owrite":
+            lines.append("%s = %s" % (prog["outer"][op[1]]["name"], lit_src(op[2])))
         elif k == "viamap":
             c = ty.ptype(op[2])[0][1]
             hn = "thru_C%d" % c
@@ -646,7 +732,12 @@ def render_program(prog, hist):
             raise Invalid()
         ty.apply(op)
     allm = bool(fl & 8)
-    text = render_classes(prog, None if allm else used) + "".join(helpers[h] for h in sorted(helpers)) + "\n".join(lines) + '\nprint "<end>"\n'
+    # variables declared outside (before) the classes
+    outer = "".join("%s = %s\n" % (ov["name"], lit_src(tt(ov["init"]) if isinstance(ov["init"], list) else ov["init"])) for ov in prog.get("outer", []))
+    text = outer + render_classes(prog, None if allm else used) + "".join(helpers[h] for h in sorted(helpers)) + "\n".join(lines) + '\nprint "<end>"\n'
+    if fl & 32 and prog.get("outer"):
+        # everything inside an enclosing function: the outer variables are its locals, captured by the class body
+        text = "run_all = fn() {\n" + "".join("\t" + l + "\n" for l in text.splitlines()) + "}\nrun_all()\n"
     return text
 
 
@@ -688,6 +779,13 @@ def model_classes(prog):
 
 
 def model_line(prog, hist):
+    if has_outer_ops(prog, hist):
+        # the Coq model covers fields only; a history that uses an outer variable is compared with the oracle only.
+        # The model still gets the history up to the first such operation (a prefix is a history).
+        n = 0
+        while not has_outer_ops(prog, hist[:n + 1]):
+            n += 1
+        hist = hist[:n]
     out = []
     ty = Typer(prog)
     for op in hist:
@@ -812,7 +910,21 @@ def gen_program(rng, thin=False):
             inv = {old: new for new, old in enumerate(perm)}
             body = [(f, ("p", inv[ini[1]]) if ini[0] == "p" else ini) for f, ini in body]
         classes.append({"fields": fields, "params": params, "body": body})
-    return {"classes": classes, "flavour": rng.randrange(32)}
+    prog = {"classes": classes, "flavour": rng.randrange(64)}
+    # variables declared outside the classes that methods read / write: a name of their own (g<i>), the name of a
+    # constructor parameter (p<j>, or f<i> when parameters are named like fields), of a method parameter (v, d, x,
+    # other) or of a field (f<i>: inside the class the bare name is the field, outside it is the variable)
+    if rng.random() < 0.4:
+        outer, names = [], []
+        for _ in range(rng.choice([1, 1, 2])):
+            name = rng.choice(["g0", "g1", "p0", "p0", "p1", "f0", "f0", "f1", "v", "d", "d", "x", "other"])
+            if name in names:
+                continue
+            names.append(name)
+            t = rng.choice([INT, INT, STR])
+            outer.append({"name": name, "type": t, "init": rand_lit(rng, t)})
+        prog["outer"] = outer
+    return prog
 
 
 class Gen:
@@ -940,7 +1052,15 @@ class Gen:
                 ["call"] * 8 + ["lnew", "lpush", "lpush", "lget", "lget", "llen"] + ["pass"] * 2 + ["retsame"] * 2 + ["is"] * 4 + ["viamap"] * 2
         if self.thin:
             kinds = ["new", "bind", "bind", "call", "call", "call", "is", "is", "print"]
+        if P.get("outer"):
+            kinds = kinds + ["oprint"] * 3 + ["owrite"] * 2 + ["ocall"] * 6
         k = rng.choice(kinds)
+        if k in ("oprint", "owrite"):
+            gi = rng.randrange(len(P["outer"]))
+            return ("oprint", gi) if k == "oprint" else ("owrite", gi, rand_lit(rng, P["outer"][gi]["type"]))
+        want_outer = k == "ocall"
+        if want_outer:
+            k = "call"
         if k == "new":
             if len(self.vars_of(lambda t: t[0] == "cls")) >= 6:
                 return None
@@ -1041,6 +1161,10 @@ class Gen:
             names = sorted(ms)
             if self.thin:
                 names = [n for n in names if n.split("_")[0] in ("get", "set", "inc", "me")]
+            if want_outer:
+                names = [n for n in names if n.split("_")[0] in OUTER_KINDS]
+                if not names:
+                    return None
             kinds_ = sorted({n.split("_")[0] for n in names})
             kind_ = rng.choice(kinds_)          # uniform over the method kinds the class has, then over its fields
             name = rng.choice([n for n in names if n.split("_")[0] == kind_])
@@ -1183,9 +1307,27 @@ def evaluate(binary, base, exe, cases):
         r["spec_failed"] = o_failed
         # the property: the observations are those of one state per object identity; nil access stops the program
         r["spec_ok"] = got == r["spec_lines"] and (rc == 1 if o_failed else rc == 0)
+        r["outer"] = has_outer_ops(p, h)
         if "error" in m:
             r["model_ok"] = False
             r["model_undefined"] = True
+        elif r["outer"]:
+            # the model ran the history up to the first operation that uses an outer variable: its output must be
+            # the beginning of what the program printed (all of it when the prefix already stops the program)
+            mo = [from_json(x) for x in m["model"]["obs"]]
+            mf = m["model"]["fail"]
+            so_ = [from_json(x) for x in m["spec"]["obs"]]
+            sf_ = m["spec"]["fail"]
+            ml = [show(o) for o in mo]
+            r["model_lines"] = ml
+            if mf is not None:
+                r["model_ok"] = got == ml and rc_class(rc) == mf
+            else:
+                r["model_ok"] = got[:len(ml)] == ml
+            r["legacy_ok"] = False
+            sl = [show(o) for o in so_]
+            r["coqspec_ok"] = r["spec_lines"][:len(sl)] == sl and (sf_ is None or o_failed)
+            r["model_undefined"] = mf in ("Stuck", "Range") or sf_ in ("Stuck", "Range")
         else:
             mo = [from_json(x) for x in m["model"]["obs"]]
             mf = m["model"]["fail"]
@@ -1238,7 +1380,7 @@ def diff_msg(exp, got):
     return "stdout line %d: expected %r, got %r" % (n + 1, exp[n:n + 3], got[n:n + 3])
 
 
-PRINTS = {"print", "isnil", "llen", "is"}
+PRINTS = {"print", "isnil", "llen", "is", "oprint"}
 
 
 def opkind(op):
@@ -1320,6 +1462,17 @@ def run(ctx):
         n_eval += 1
         for op in r["hist"]:
             opcount[opkind(op)] = opcount.get(opkind(op), 0) + 1
+        if not r["compiled"] and any(d for _, d in outer_hidden_by_param(r["prog"])):
+            # tree before fixes/c08-params-not-in-class-type-scope.diff: inside a method the outer variable is given the
+            # TYPE of the same-named parameter of the constructor / of another method: a valid program is rejected
+            spec_fail += 1
+            spec_found = True
+            if "B" not in seen_prefix:
+                seen_prefix.add("B")
+                ctx.report("outer-variable-hidden-by-param:typed-as-param",
+                           "a method reads an outer variable whose name is also a parameter (of another type) of the constructor / of another method and the checker types it as that parameter: %s"
+                           % " ".join(r["got"])[:400], replay_of(r))
+            continue
         if not r["compiled"]:
             not_compiled += 1
             if not_compiled <= 3:
@@ -1356,6 +1509,22 @@ def run(ctx):
                 pre2 = "wrapped-reference-is-false" if first_diff_op(rr, "model_lines") == "is" else "wrapped-reference-lookup-fails"
                 ctx.report(pre2, "an object stored in a map and taken out again (map.replace returns Optional(Some(object))) is not treated as that object: %s; expected exit %s, got rc %d"
                            % (diff_msg(rr["spec_lines"], rr["got"]), "1" if rr["spec_failed"] else "0", rr["rc"]), replay_of(rr))
+            continue
+        if not r["spec_ok"] and r["rc"] == 1 and "is not in scope" in r["stderr"] and outer_hidden_by_param(r["prog"]):
+            # tree before fixes/c08-ctor-params-not-class-scope.diff: the class body counted the parameters of its constructor
+            # and methods as its own names, so a method's use of an outer variable of that name was not captured
+            spec_fail += 1
+            spec_found = True
+            if "A" not in seen_prefix:
+                seen_prefix.add("A")
+                bad = lambda x: not x["spec_ok"] and x["rc"] == 1 and "is not in scope" in x["stderr"]
+                small = shrink(binary, base, exe, r["prog"], r["hist"], bad)
+                rr = evaluate(binary, base, exe, [(r["prog"], small)])[0]
+                if not bad(rr) or not rr["compiled"]:
+                    rr = r
+                ctx.report("outer-variable-hidden-by-param:not-in-scope",
+                           "a method reads an outer variable whose name is also a parameter of the constructor / of a method: the class body does not capture it (%s): %s; expected exit %s, got rc %d"
+                           % (", ".join(n for n, _ in outer_hidden_by_param(rr["prog"])), diff_msg(rr["spec_lines"], rr["got"]), "1" if rr["spec_failed"] else "0", rr["rc"]), replay_of(rr))
             continue
         if not r["spec_ok"]:
             spec_fail += 1
@@ -1398,6 +1567,8 @@ def run(ctx):
     ctx.cov["histories_per_program"] = per_prog
     ctx.cov["field_type_distribution"] = dict(sorted(shapes.items()))
     ctx.cov["operation_distribution"] = dict(sorted(opcount.items()))
+    ctx.cov["histories_using_outer_variables(oracle only after the first such operation)"] = sum(1 for r in res if r.get("outer"))
+    ctx.cov["cases_with_outer_variable_named_like_a_parameter"] = sum(1 for r in res if outer_hidden_by_param(r["prog"]))
     ctx.cov["model_impl_disagreements"] = dis
     ctx.cov["spec_failures"] = spec_fail
     ctx.cov["programs_rejected_by_compiler"] = not_compiled
